@@ -30,6 +30,12 @@ def sig_of(rej, scn):
             not (isinstance(g, dict) and g.get("t") == "esc" and g.get("f") == 92 and not g.get("i")):
         # at[2]: the oracle's marker of the situation this ESC \\ is in (after an abandoned DCS header, ESC ESC \\ after a string)
         return "C02:items:lost-ESC-backslash" + (":" + at[2] if len(at) > 2 and at[2] else "")
+    if isinstance(w, dict) and isinstance(g, dict) and w.get("t") == "dcs" and g.get("t") == "dcs" and \
+            all(w.get(k) == g.get(k) for k in ("i", "f", "d")):
+        # the same device control string, its parameters differ (a value of 19 digits or more, [-2], is open)
+        if len(g.get("p") or []) < len(w.get("p") or []):
+            return "C02:items:dcs-parameters-lost"
+        return "C02:items:dcs-parameters-differ"
     return "C02:items:want=%s:got=%s" % (_t(w), _t(g))
 
 
@@ -41,7 +47,10 @@ def main(c):
         "input is UTF-8: no 8-bit C1 controls; a non-ASCII scalar inside an escape/control sequence cancels it and whether it is printed is unconstrained; "
         "in the header of a device control string it may also be ignored, be taken as the final character or turn the string into an ignored one (each followed consistently to the end of the input)",
         "an ESC \\ is withheld only when its ESC ended a string state; optional when its ESC cut a DCS header short or a C0 control came between the two; delivered in every other place (after BEL/CAN/SUB, after a second ESC, after a cancelled sequence)",
-        "more than 16 CSI parameters: only the first 16 are prescribed; a parameter value of 19 digits or more (beyond a 64-bit integer) is unconstrained, smaller ones are compared exactly as digit sequences",
+        "more than 16 CSI parameters: only the first 16 are prescribed; a parameter value of 19 digits or more (beyond a 64-bit integer) is unconstrained, smaller ones are compared exactly as digit sequences "
+        "(CSI and DCS alike: an out-of-range value leaves only itself open, not its neighbours nor the number of parameters)",
+        "Go error values on the sequence channel are diagnostics of a character without a table entry (non-ASCII inside a sequence): not compared with the prescription, "
+        "but none may arrive when every input character is 00-7F (the state table covers those in every state)",
     ]
     if not c.replay:
         c.model_check(specs, "MC_VT500.tla", "MC_VT500.cfg" if c.tier == "quick" else "MC_VT500_deep.cfg", workers=16)
